@@ -309,6 +309,53 @@ def r5(ctx, prop=P, rule="C06.R5"):
         first = _find(v, lambda q: q[0] == "index")
         ctx.check(prop, rule, "reader: u32 words are little-endian", {p[0] for p in pairs} == {8, 16, 24} and {p[1] for p in pairs} == {"1", "2", "3"} and all(int(p[1]) * 8 == p[0] for p in pairs),
                   "byte k shifted by 8k", "byte/shift pairs are %s" % sorted(pairs))
+    # trip count of the reader's word loop for a full page == words per page
+    words = const_lookup(ctx, "bitfield::fixed::FIXED_BITFIELD_LENGTH")
+    trip = None
+    detail = "no affine word loop found"
+    for h, body, _ in fd.loops():
+        for b, o, tr, fl in bool_switches(fd, lambda o: o[0] == "bin" and o[1] in ("Le", "Lt", "Ge", "Gt")):
+            if b not in body:
+                continue
+            op, lhs, rhs = o[1], o[2], o[3]
+            if op in ("Ge", "Gt"):
+                op, lhs, rhs = {"Ge": "Le", "Gt": "Lt"}[op], rhs, lhs
+            li = lin(ctx, lhs)
+            if li is None or "<loop>" not in li:
+                continue
+            init = {k: v for k, v in li.items() if k != "<loop>"}
+            # bound with min(a, len) resolved to its first argument (a complete page is available)
+            def full(t_):
+                t_ = unwrap_ovf(t_)
+                if isinstance(t_, tuple) and t_[0] == "call" and t_[2].split("::")[-1] == "min":
+                    return full(t_[3][0])
+                if isinstance(t_, tuple) and t_[0] == "bin":
+                    return ("bin", t_[1], full(t_[2]), full(t_[3]))
+                return t_
+            lb = lin(ctx, full(rhs))
+            if lb is None:
+                continue
+            diff = dict(lb)
+            for k, v in init.items():
+                diff[k] = diff.get(k, 0) - v
+            diff = {k: v for k, v in diff.items() if v != 0}
+            if set(diff) <= {1}:
+                span = diff.get(1, 0)
+                step = None
+                for st_b in body:
+                    for st in fd.blocks[st_b].stmts:
+                        if st["k"] == "assign" and st["rv"]["k"] == "bin" and st["rv"]["op"].startswith("Add") and named_local(fd, st["rv"]["l"], st_b, 0) == named_local(fd, {"c": {"l": 0, "p": []}}, 0, 0):
+                            pass
+                # step: the literal added to the loop variable
+                lv = unwrap_ovf(lhs)
+                steps = [ev(ctx, x[3]) for x in subterms(lv) if isinstance(x, tuple) and x[0] == "bin" and x[1] == "Add" and ev(ctx, x[3]) is not None and contains(x[2], lambda q: isinstance(q, tuple) and q and q[0] == "cycle")]
+                if steps:
+                    step = steps[0]
+                    from math import ceil, floor
+                    trip = int(floor(span / step)) + 1 if op == "Le" else int(ceil(span / step))
+                    detail = "for a complete page: i from page start, step %s, while i %s start + %s => %s iterations" % (step, "<=" if op == "Le" else "<", span, trip)
+    ctx.check(prop, rule, "reader: a complete page yields all %s words" % words, trip == words, detail,
+              "FixedBitfield::from_data reads %s words of a complete page (%s) but a page holds %s: the last word(s) of every reloaded page stay zero" % (trip, detail, words), key="%s|%s|FixedBitfield::from_data|word loop trip count" % (prop, rule))
     les = [s for s, t in ft.calls() if (t.get("callee") or "").endswith("::to_le_bytes")]
     ctx.check(prop, rule, "writer: u32 words are little-endian", bool(les), "to_le_bytes", "to_bytes does not use to_le_bytes")
     # open requests the whole store, multiples of 4
